@@ -7,11 +7,12 @@ import socket
 from pv import gallina as G
 from pv.canon import B, Exc, T, Val, outcome, unB
 from props._c11_tables import gen_tables  # noqa: F401  (translator hook called by pv.core before the Coq build)
+from props import _c11_live as live
 
 ID = "C11"
 COQ_REQUIRE = "C11.Run"
 SHARD = 40
-RULE = ("kernel states drawn from a grammar: 0-30 sockets over /proc/net/{tcp,tcp6,udp,udp6,unix} (IPv4/IPv6 addresses incl. "
+RULE = ("one live case (real sockets; the running kernel's /proc/net files are printed back byte for byte by the spec) and kernel states drawn from a grammar: 0-30 sockets over /proc/net/{tcp,tcp6,udp,udp6,unix} (IPv4/IPv6 addresses incl. "
         "zero, loopback, v4-mapped, link-local, all-ones, random; ports {0,1,22,80,443,65535,random}; all 11 TCP states; inode 0 "
         "TIME_WAIT lines; UNIX stream/dgram/seqpacket, unbound / path / path with blanks, tabs, trailing blank / @abstract / "
         "UTF-8 / undecodable bytes / leading, trailing, repeated blanks and tabs / CR, \\x1c-\\x1f, VT, FF, NBSP, NEL, LINE SEPARATOR / LF (outside the theorems, model only)), 1-4 processes (visible or EACCES fd directory) holding each socket through "
@@ -22,9 +23,13 @@ RULE = ("kernel states drawn from a grammar: 0-30 sockets over /proc/net/{tcp,tc
         "UNIX junk line without blank, short UNIX line with a blank, exactly 7 fields, process without sockets over tables that would raise). "
         "Per call three observations are compared: returned list (duplicates kept), add() sequence (multiset), /proc/net access log. "
         "A case is non-trivial when it has at least one socket; distinct = distinct canonical case hash.")
+LIVE = ("one live case per run: 21 real sockets (TCP listen/connected v4+v6, UDP, UNIX path/abstract/unbound/socketpair), the real "
+        "/proc/net/{tcp,tcp6,udp,udp6,unix} and /proc/self/fd parsed into the spec's records; Spec.k_files must print the real files byte "
+        "for byte (else exit 2); psutil over the snapshot and over the real /proc must list exactly those sockets")
 TRUSTED = ["correspondence harness props/C11.py + pv/ (fake /proc tree, os.listdir / os.readlink patches; recording set installed as "
            "psutil._pslinux.set, open_text wrapper for the access log, socket.inet_ntop / supports_ipv6 patches for the host oracle)",
-           "kernel formats of /proc/net/{tcp,tcp6,udp,udp6,unix} and /proc/<pid>/fd transcribed in coq/C11/Spec.v",
+           "kernel formats of /proc/net/{tcp,tcp6,udp,udp6,unix} and /proc/<pid>/fd transcribed in coq/C11/Spec.v -- tied to the running "
+           "kernel on every run by the live case (byte-for-byte comparison of the printed files with the real ones)",
            "table translator props/_c11_tables.py (dumps TCP_STATUSES, tmap, conn_tmap, socket constants into coq/Gen/C11_Tables.v)",
            "glibc inet_ntop/inet_pton: an address is compared as its packed bytes (socket.inet_pton of the text psutil returns)"]
 ASSUMPTIONS = ["CPython semantics of str.split/int/base64.b16decode/struct and dict/set are modelled, not verified",
@@ -428,6 +433,12 @@ def gen_cases(rng, tier):
     ports = [0, 1, 255, 256, 4095, 4096, 65535] + (list(range(0, 65536, 257)) if tier == "thorough" else [])
     for p in ports:
         cases.append({"kind": "addr", "cls": "addr-port", "le": True, "o": [True, True], "ip": [10, 0, 0, 5], "port": p})
+    # ---- live: real sockets, the running kernel's /proc/net files and fd links (validates the kernel printers of Spec.v)
+    if tier != "search":
+        c = live.snapshot()
+        c["kinds"] = list(KINDS) + ["bogus"]
+        c["sel"] = [[0, list(KINDS)]]
+        cases.append(c)
     # ---- random states
     for i in range(n_state):
         r = rng.random()
@@ -493,20 +504,29 @@ def _isock_layout(s, idx, wide):
 
 
 def _isock_term(s, idx, wide):
-    lead, pads, sl, uid, timeout = _isock_layout(s, idx, wide)
-    mid = ["00000000:00000000", "00:00000000", "00000000", uid, timeout]
+    if "raw" in s:       # a record parsed from the running kernel's file: its own layout
+        r = s["raw"]
+        lead, pads, sl, mid, ino, tail = r["lead"], r["pads"], r["sl"], r["mid"], r["ino"], bytes.fromhex(r["tail"])
+    else:
+        lead, pads, sl, uid, timeout = _isock_layout(s, idx, wide)
+        mid, ino, tail = ["00000000:00000000", "00:00000000", "00000000", uid, timeout], str(s["inode"]), s["tail"]
     return "(Build_isock %s %s %s %s %s %s %s %s %s %s %s)" % (
         G.nat(lead), _padfun(pads), G.by(sl), _ipterm(s["lip"]), G.z(s["lport"]), _ipterm(s["rip"]), G.z(s["rport"]),
-        G.z(s["st"]), G.lst([G.by(m) for m in mid]), G.by(str(s["inode"])), G.by(s["tail"]))
+        G.z(s["st"]), G.lst([G.by(m) for m in mid]), G.by(ino), G.by(tail))
 
 
 def _usock_term(u):
+    ty = {1: "UStream", 2: "UDgram", 5: "USeqpacket"}[u["type"]]
+    path = "None" if u["path"] is None else "(Some %s)" % G.by(bytes.fromhex(u["path"]))
+    if "raw" in u:       # a record parsed from the running kernel's file
+        r = u["raw"]
+        return "(Build_usock %s %s %s %s %s %s %s %s %s)" % (
+            _padfun(r["pads"]), G.by(r["num"]), G.by(r["ref"]), G.by(r["proto"]), G.by(r["flags"]), ty, G.by(r["st"]),
+            G.by(r["ino"]), path)
     ino = str(u["inode"])
     pads = [0] * 6
     pads[0] = u["xpad"]
     pads[5] = max(0, 5 - len(ino))        # "%5lu"
-    ty = {1: "UStream", 2: "UDgram", 5: "USeqpacket"}[u["type"]]
-    path = "None" if u["path"] is None else "(Some %s)" % G.by(bytes.fromhex(u["path"]))
     return "(Build_usock %s %s %s %s %s %s %s %s %s)" % (
         _padfun(pads), G.by("0000000000000000:"), G.by("%08X" % u["ref"]), G.by("00000000"), G.by("%08X" % u["flags"]), ty,
         G.by("%02X" % u["st"]), G.by(ino), path)
@@ -571,7 +591,7 @@ def _degenerate(rng, st, p=1.0, only=None):
 
 def coq_term(case):
     k = case["kind"]
-    if k == "state":
+    if k in ("state", "live"):
         def tbl(name, wide):
             v = case[name]
             if v is None:
@@ -618,7 +638,10 @@ def _comp(x, drop_pid):
 
 def coq_struct(case, raw):
     k = case["kind"]
-    if k == "state":
+    if k == "live":
+        # the records were parsed from the running kernel's files: the spec's printers must give those bytes back
+        live.check_printed(case, [None if x is None else unB(x) for x in raw[0]])
+    if k in ("state", "live"):
         sysm = [_comp(x, False) for x in raw[2]]
         procm = [[_comp(x, True) for x in per] for per in raw[3]]
         syse = [[x[3], x[4]] for x in raw[2]]
@@ -691,7 +714,7 @@ def _call_ok(comp, entries, slog, per_process, check_log=True):
 
 
 def finding_key(case, coq):
-    if case["kind"] != "state":
+    if case["kind"] not in ("state", "live"):
         return None
     if not EXACT_UNIX_PATH and any(u["path"] is not None and bytes.fromhex(u["path"])[:1]
                                    and bytes.fromhex(u["path"])[0] in WS for u in case["unix"]):
@@ -736,7 +759,13 @@ def judge(case, coq, impl):
     problems, corr = [], []
     if k == "raw":
         problems.extend(_expect_problems(case, impl))
-    if k == "state" and coq["wf"]:
+    if k == "live":
+        if not coq["wf"]:
+            raise RuntimeError("C11 live: the state parsed from the running kernel is outside the theorems' domain (wf_state / "
+                               "files_text_safe false): %r" % ({n: case[t] for n, t in live.TABLE.items()},))
+        problems.extend(impl[2])
+        impl = impl[:2]
+    if k in ("state", "live") and coq["wf"]:
         syse, proce = coq["entries"]
         for kind, got, (ent, slog) in zip(case["kinds"], impl[0], syse):
             if kind not in KINDS:
@@ -763,7 +792,7 @@ def judge(case, coq, impl):
                     problems.append("Process(%d).net_connections(%r): %s" % (pid, kind, msg))
     if problems:
         return Verdict("violation", "; ".join(problems[:3]))
-    if k == "state" and coq["wf"] and finding_key(case, coq) is not None:
+    if k in ("state", "live") and coq["wf"] and finding_key(case, coq) is not None:
         # input class of a known finding: the implementation gave the demanded answer (the model holds the
         # defective one) -- accepted: "the modelled defective answer or the specification's"
         return Verdict("ok", "finding class, demanded answer")
@@ -861,7 +890,12 @@ def impl_run(case, coq, env):
                     text = bytes.fromhex(case["text"]).decode("ascii")
                     fam = case["family"]
                 return outcome(lambda: _pslinux.NetConnections.decode_address(text, fam), lambda a: _conv_addr(a, fam))
-            return _run_tables(case, coq, env, psutil, fakeproc)
+            res = _run_tables(case, coq, env, psutil, fakeproc)
+            if k == "live":
+                # the same question over the REAL /proc, for sockets opened in this process
+                probs, _missing = live.real_proc_problems(psutil, env["work"], _conv_rows(False), _conv_rows(True), B)
+                res = res + [probs]
+            return res
     finally:
         _pslinux.LITTLE_ENDIAN = saved_le
 
@@ -873,7 +907,7 @@ def _run_tables(case, coq, env, psutil, fakeproc):
     fp = fakeproc.FakeProc(root)
     fakeproc.attach(psutil, root)
     os.makedirs(os.path.join(root, "net"))
-    if k == "state":
+    if k in ("state", "live"):
         for name, content in zip(("tcp", "tcp6", "udp", "udp6", "unix"), coq["printed"]):
             if content is not None:
                 with open(os.path.join(root, "net", name), "wb") as f:
